@@ -15,8 +15,8 @@ var aqDims = []dim{
 	{"envelope", []string{"ok", "no-query", "notxml", "empty"}},
 	{"issuer", []string{"registered", "absent", "unregistered"}},
 	{"subject", []string{"alice", "no-nameid", "unknown-user", "bob"}},
-	{"requested", []string{"none", "email", "email+username", "wrong-name", "wrong-format", "duplicate", "custom", "mixed"}},
-	{"destination", []string{"absent", "attribute-service", "sso-location", "foreign"}},
+	{"requested", []string{"none", "email", "email+username", "wrong-name", "wrong-format", "duplicate", "custom", "mixed", "nameless"}},
+	{"destination", []string{"absent", "attribute-service", "sso-location", "foreign", "case-variant"}},
 	{"signature", []string{"none", "valid", "tampered", "foreign-key", "empty-value", "valid-nokeyinfo", "tampered-nokeyinfo", "wrapped-header", "wrapped-body"}},
 	{"user", []string{"full", "custom", "minimal", "hostile"}},
 	{"lookup", []string{"ok", "fail"}},
@@ -56,6 +56,9 @@ func requestedFor(label string) []reqAttr {
 		return []reqAttr{{"groups", basicFmt}, {"urn:oid:1.2.3", "urn:oasis:names:tc:SAML:2.0:attrname-format:uri"}}
 	case "mixed":
 		return []reqAttr{{"Nope", basicFmt}, {"SurName", basicFmt}, {"groups", "urn:other"}, {"FullName", basicFmt}}
+	case "nameless":
+		// attributes were requested, but none carries a name: nothing the user holds matches
+		return []reqAttr{{"", basicFmt}, {"", "urn:oasis:names:tc:SAML:2.0:attrname-format:uri"}}
 	}
 	return nil
 }
@@ -131,6 +134,9 @@ func runAq(c Case) *AqRun {
 		fmt.Fprintf(&q, ` Destination="%s"`, ssoLocation)
 	case "foreign":
 		q.WriteString(` Destination="https://evil.example.com/attribute"`)
+	case "case-variant":
+		// differs from the advertised location by letter case in the path only (paths are case-sensitive)
+		fmt.Fprintf(&q, ` Destination="%s"`, strings.Replace(attrServiceLocation, "/attribute", "/ATTRIBUTE", 1))
 	}
 	q.WriteString(">")
 	switch c["issuer"] {
@@ -306,7 +312,7 @@ func monC12(c *Ctx, r *AqRun) {
 		}
 	}
 	switch cs["destination"] {
-	case "sso-location", "foreign":
+	case "sso-location", "foreign", "case-variant":
 		bad("answered although Destination is not a location advertised for the attribute service", "guard-destination:"+cs["destination"])
 	}
 	if r.User == nil {
